@@ -488,6 +488,10 @@ func runC06(c *eng.Ctx) {
 	}
 	c.Floor(8)
 
+	// what a restore recomputes from (members, subscriptions) must equal what the incremental updates left in memory
+	c.Rule("R12.5", "K2")
+	ruleGroupBookkeeping(c)
+	c.Floor(25)
 	c.Rule("R07.9", "K2")
 	ruleISRPersisted(c)
 	c.Floor(2)
